@@ -1,4 +1,5 @@
 import OdxVerif.Proofs.DecodeErrs
+import OdxVerif.Proofs.Truncated
 /-! # C05 — decoding arbitrary bytes is total: it returns or raises a decode error
     *Totality*: `decodeMessage` is a total Lean function (`Except Err (PVal × Nat)`), so in the model
     every byte string yields a result or an error — the Python `while` loops are modelled with fuel; a loop
@@ -52,6 +53,24 @@ theorem C05_truncated_rejected (bl : Nat) (bt : BaseType) (enc : Option Enc) (hl
     extractCore bl bt enc hl d st = .error (.decode, d) := by
   unfold extractCore
   simp [bind, run_bind, run_getS, hshort, run_ite, run_raise]
+
+/-- **Truncated PDUs are rejected, struct tier (API level of the model).** For every nested description with VALUE /
+    CODED-CONST leaves over the five leaf kinds: `(Trees.pair ts).fits` says that the bytes of *every* leaf — at the
+    position the decoder reaches it — lie inside the message. If they do not, `Request.decode` raises `DecodeError`;
+    if `Request.decode` returns, they do (`C05_no_invention_struct`): no value is ever produced from bytes that are
+    not there. -/
+theorem C05_truncated_rejected_struct (ts : List Tree) (hneed : Trees.need ts + 2 ≤ modelFuel) (hok : Trees.okAll ts)
+    (msg : Bytes) (hshort : ¬ (Trees.pair ts).fits { msg := msg }) :
+    decodeMessage none (Trees.toParams ts) msg true = .error .decode :=
+  decodeMessage_tree_short ts hneed hok msg hshort
+
+theorem C05_no_invention_struct (ts : List Tree) (hneed : Trees.need ts + 2 ≤ modelFuel) (hok : Trees.okAll ts)
+    (msg : Bytes) (v : PVal) (c : Nat) (h : decodeMessage none (Trees.toParams ts) msg true = .ok (v, c)) :
+    (Trees.pair ts).fits { msg := msg } := by
+  apply Classical.byContradiction
+  intro hd
+  rw [decodeMessage_tree_short ts hneed hok msg hd] at h
+  cases h
 
 /-! non-vacuity: a 2-byte message for a 3-byte description is rejected with a decode error; random bytes
     for a string parameter give a decode error, not a foreign one -/
